@@ -229,7 +229,7 @@ CalcValueNoW(amount, price, dec) ==
   IF BIsZero(amount) THEN BZero ELSE FDiv(FMul(amount, price), Exp10(dec))
 CalcAmount(value, price, dec) == FDiv(FMul(value, Exp10(dec)), price)
 SideOf(s) == IF ~BLt(s.l, IONE) THEN "L" ELSE IF ~BLt(s.a, IONE) THEN "A" ELSE "N"
-\* ---- oracle prices as the risk engine reads them (Fixed and Pyth push feeds) ------------------------------------------
+\* ---- oracle prices as the risk engine reads them (Fixed, Pyth push and Switchboard pull feeds) ------------------------------------------
 \* pyth_price_components_to_i80f48: the integer times 10^expo, one truncating division or one flooring multiplication
 PythToFix(n, expo) == IF expo = 0 THEN FOfBig(n) ELSE IF expo < 0 THEN FDiv(FOfBig(n), Exp10(-expo)) ELSE FMul(FOfBig(n), Exp10(expo))
 \* PythPushOraclePriceFeed::get_confidence_interval: 2.12 sigma, refused beyond the bank's maximum (default 10 %), capped at 5 %
@@ -241,9 +241,23 @@ ImplPythConf(o, useEma, maxconf) ==
   IN IF BGt(c, maxc) THEN E("OracleMaxConfidenceExceeded") ELSE [v |-> BMin(c, FMul(p, IC_MAX_CONF_INTERVAL))]
 \* what the engine knows about a bank's price at time `now`: whether the feed loads at all (load = "ok" or the error),
 \* the time-weighted and the real-time price, and for each its confidence interval (or the error asking for it raises)
+\* SwitchboardPullPriceFeed: the 10^18-scaled value (truncating division), 1.96 sigma, same maximum and cap; one price for both types
+ImplSwbConf(o, maxconf) ==
+  LET c == FMul(FDiv(FOfBig(o.swb_std), Exp10(18)), IC_STD_DEV_MULTIPLE)
+      p == FDiv(FOfBig(o.swb_value), Exp10(18))
+      mc == IF BIsPos(maxconf) THEN FOfBig(maxconf) ELSE IC_U32_MAX_DIV_10
+      maxc == FDiv(FMul(p, mc), IC_U32_MAX)
+  IN IF BGt(c, maxc) THEN E("OracleMaxConfidenceExceeded") ELSE [v |-> BMin(c, FMul(p, IC_MAX_CONF_INTERVAL))]
 ImplPx(b, oracles, now) ==
-  IF b.cfg.oracle_setup # 3 \/ ~Has(oracles, b.cfg.oracle_keys[1]) THEN
+  IF b.cfg.oracle_setup \notin {3, 4} \/ ~Has(oracles, b.cfg.oracle_keys[1]) THEN
      [load |-> "ok", pTW |-> b.cfg.fixed_price, pRT |-> b.cfg.fixed_price, cTW |-> [v |-> BZero], cRT |-> [v |-> BZero]]
+  ELSE IF b.cfg.oracle_setup = 4 THEN
+     LET o == oracles[b.cfg.oracle_keys[1]]
+         load == IF ~o.owner_ok THEN "SwitchboardWrongAccountOwner"
+                 ELSE IF BGt(BSub(now, o.ts), BOfInt(b.cfg.oracle_max_age)) THEN "SwitchboardStalePrice" ELSE "ok"
+         p == FDiv(FOfBig(o.swb_value), Exp10(18))
+         c == ImplSwbConf(o, b.cfg.oracle_max_conf)
+     IN [load |-> load, pTW |-> p, pRT |-> p, cTW |-> c, cRT |-> c]
   ELSE LET o == oracles[b.cfg.oracle_keys[1]]
            maxAge == IF b.cfg.oracle_max_age = 0 THEN IC_MAX_PYTH_ORACLE_AGE ELSE BOfInt(b.cfg.oracle_max_age)
            load == IF ~o.owner_ok THEN "PythPushWrongAccountOwner"
